@@ -115,6 +115,64 @@ def shard_snapshot(seed, count):
     return acc
 
 
+# ---------------------------------------------------------------------------------------------- (d) process history
+def run_script(cfgname, script, j, with_prior):
+    """runs `script` = [(prior, case)] in a FRESH interpreter and returns the trace of every case's instance (configuration `cfgname`, j steps).
+    with_prior=False: the interpreter only ever sees configuration `cfgname` (no memo, module global or class attribute left behind by anything else
+    can influence it) - the oracle. with_prior=True: before each case, instances of the other configurations in `prior` = [(cfgname, case, steps)] are
+    created and stepped in the same interpreter. Both sides start from a clean process, so a divergence is a pure function of the script."""
+    import json, os, subprocess, sys
+    env = dict(os.environ, PYTHONHASHSEED='0', PYTHONDONTWRITEBYTECODE='1')
+    r = subprocess.run([sys.executable, '-m', 'vf.props.c20', '--script'],
+                       input=json.dumps({'cfgname': cfgname, 'script': script, 'j': j, 'with_prior': with_prior}),
+                       capture_output=True, text=True, env=env, cwd=os.path.dirname(os.path.dirname(os.path.dirname(os.path.abspath(__file__)))))
+    if r.returncode != 0:
+        raise RuntimeError('script process failed: ' + r.stderr[-2000:])
+    return [[tuple(x) for x in t] for t in json.loads(r.stdout.splitlines()[-1])]
+
+
+def _script_main():
+    import json, sys
+    req = json.load(sys.stdin)
+    out = []
+    for prior, case in req['script']:
+        if req['with_prior']:
+            for pc, pcase, psteps in prior:
+                target.load_config(gen.CONFIGS[pc])
+                step_trace(e1.build(pcase), psteps)
+        target.load_config(gen.CONFIGS[req['cfgname']])
+        out.append(step_trace(e1.build(case), req['j']))
+    sys.__stdout__.write(json.dumps(out) + '\n')
+    sys.__stdout__.flush()
+
+
+def shard_fresh(cfgname, seed, count):
+    acc = Acc()
+    rng = random.Random(seed)
+    j = 6
+    script = []
+    for _ in range(count):
+        prior = []
+        for _ in range(rng.randrange(1, 3)):
+            pc = rng.choice([c for c in CFGS if c != cfgname])
+            prior.append([pc, program_case(rng, pc), rng.randrange(1, 6)])
+        script.append([prior, program_case(rng, cfgname)])
+    want = run_script(cfgname, script, j, False)
+    got = run_script(cfgname, script, j, True)
+    for i, ((prior, case), w, g) in enumerate(zip(script, want, got)):
+        acc.case(True, ('fresh', cfgname, case['poke'][0][1][:64], case['state']['cpsr'], tuple(p[0] for p in prior)), cls='fresh-process:' + cfgname,
+                 sample={'config': cfgname, 'prior_configs': [p[0] for p in prior], 'code': case['poke'][0][1][:32]})
+        if g != w:
+            # smallest reproducing script: this item alone, else the whole prefix
+            alone = [script[i]]
+            sub = alone if run_script(cfgname, alone, j, True) != run_script(cfgname, alone, j, False) else script[:i + 1]
+            acc.violation('C20:process-history:%s-after-%s' % (cfgname, '+'.join(sorted({p[0] for p in prior}))),
+                          {'cfgname': cfgname, 'script': sub, 'j': j, 'kind': 'fresh'},
+                          {'first_divergent_step': next(x for x in range(j) if g[x] != w[x]), 'script_items': len(sub)})
+            break
+    return acc
+
+
 # ---------------------------------------------------------------------------------------------- (c) isolation
 class Diverged(Exception):
     pass
@@ -239,12 +297,13 @@ def run(ctx):
                 'and step them in a generated interleaving; after every step the instance must equal its solo twin stepped under its own configuration. '
                 'Same-configuration groups must be perfectly isolated; mixed-configuration groups (PMSA/VMSA, arch 5/6/7, security on/off, 7-R) are '
                 'attributed to the known finding config-singleton only when the observed state equals the prediction "the module-level configuration is '
-                'the one of the most recently constructed instance". Non-trivial: a store or exception before the split / >=2 switches in the interleaving.')
+                'the one of the most recently constructed instance". (d) process history: an instance created from configuration file X after instances of other configurations were created and stepped in the same process must produce the trace a fresh interpreter that only ever loaded X produces (both sides run in fresh subprocesses, so a divergence is a pure function of the recorded script). Non-trivial: a store or exception before the split / >=2 switches in the interleaving.')
     ctx.technique = 'stateful property testing of instance interleavings (Hypothesis rule-based machine) + snapshot/replay trace equality'
     ctx.assumptions = ['schedules are interleavings of whole emulate_cycle() calls chosen by the harness (no threads)']
     tasks = [(shard_snapshot, (ctx.shard_seed(i), ctx.n(500, 5000))) for i in range(8)]
     tasks += [(shard_iso, (ctx.shard_seed(100 + i), ctx.n(120, 1500), ctx.n(25, 40), True)) for i in range(4)]
     tasks += [(shard_iso, (ctx.shard_seed(200 + i), ctx.n(120, 1500), ctx.n(25, 40), False)) for i in range(4)]
+    tasks += [(shard_fresh, (c, ctx.shard_seed(300 + i), ctx.n(60, 1200))) for i, c in enumerate(CFGS)]
     ctx.pmap(_dispatch, tasks)
 
 
@@ -256,6 +315,10 @@ def replay(case, bucket=None):
     if 'history' in case:
         msg = replay_history([tuple(h) for h in case['history']], case.get('same_config', False))
         return [msg] if msg else []
+    if case.get('kind') == 'fresh':
+        want = run_script(case['cfgname'], case['script'], case['j'], False)
+        got = run_script(case['cfgname'], case['script'], case['j'], True)
+        return ['diverged from the fresh-process trace'] if got[-1] != want[-1] else []
     c = case['case']
     if 'other' in case:
         try:
@@ -270,3 +333,9 @@ def replay(case, bucket=None):
     t1, t2 = step_trace(cpu, j), step_trace(clone, j)
     t3 = step_trace(e1.build(c), k + j)[k:]
     return ['diverged'] if (t1 != t2 or t1 != t3) else []
+
+
+if __name__ == '__main__':
+    import sys
+    if '--script' in sys.argv:
+        _script_main()
